@@ -25,8 +25,8 @@ BATCH = 20
 RULE = ("one run = one seeded (schema, value) encoded by the independent foreign writer under a drawn "
         "block layout (any partition of each array/map, each block in positive- or negative-count+"
         "byte-size form); evaluations = decode attempts: fault-free read and skip, cut(k) for EVERY k "
-        "(encodings > 2 KiB quick / 16 KiB thorough: first 512 B, last 256 B and a stride) in both modes, "
-        "bad_index at EVERY union/enum index site (more than 48 quick / 512 thorough sites: first, last and a seeded sample) x 12 out-of-range values (8 fixed + 4 seeded of the form 2^k + valid index) (union: read "
+        "(encodings > 2 KiB quick / 6 KiB thorough: first 512 B, last 256 B and a stride) in both modes, "
+        "bad_index at EVERY union/enum index site (more than 48 quick / 192 thorough sites: first, last and a seeded sample) x 12 out-of-range values (8 fixed + 4 seeded of the form 2^k + valid index) (union: read "
         "and skip mode; enum: read mode). non-trivial = the encoding is non-empty; distinct = faults "
         "counted over distinct (schema, encoding) digests")
 ASSUMPTIONS = [
@@ -65,8 +65,8 @@ def _bad_values(n, ch=None):
 
 def _cuts(ch, L, tier):
     """Every proper prefix; for encodings dominated by long payloads (> 2 KiB quick,
-    > 16 KiB thorough) the first 512 B, the last 256 bytes and a seeded stride."""
-    lim = 2048 if tier == "quick" else 16384
+    > 6 KiB thorough) the first 512 B, the last 256 bytes and a seeded stride."""
+    lim = 2048 if tier == "quick" else 6144
     if L <= lim:
         return range(L)
     ks = set(range(512)) | set(range(L - 256, L))
@@ -206,7 +206,7 @@ def run_one(ch, ctx):
 
     # ---- bad_index at every site ---------------------------------------------------------------
     for mode, data, st, sch, rs in (("read", enc, sites, PS, None), ("skip", wenc, wsites, PWS, PRS)):
-        cap = 48 if ctx.tier == "quick" else 512
+        cap = 48 if ctx.tier == "quick" else 192
         if len(st) > cap:
             # very many index sites (large collections of unions/enums): first, last and a seeded sample
             q = cap // 4
